@@ -126,3 +126,12 @@ mod tests {
         is_send::<super::SendDispatcher>();
     }
 }
+
+#[cfg(feature = "verif-hooks")]
+impl SendDispatcher<'_> {
+    /// Verification hook (read-only): for every stage, the number of boxed
+    /// systems in every group, i.e. the shape of the layout that is executed.
+    pub fn verif_shape(&self) -> Vec<Vec<usize>> {
+        self.stages.iter().map(Stage::verif_group_lens).collect()
+    }
+}
